@@ -1,4 +1,6 @@
 //! vp: compiler / package-manager properties (everything except the text-only and LSP ones).
+mod asmprops;
+mod irprops;
 mod pkgprops;
 mod progprops;
 mod smoke;
@@ -24,6 +26,13 @@ fn main() {
                 "C01" => progprops::run(&Ctx::new("C01", &tier)),
                 "C02" => progprops::run(&Ctx::new("C02", &tier)),
                 "C17" => progprops::run_c17(&Ctx::new("C17", &tier)),
+                "C07" => asmprops::run_c07(&Ctx::new("C07", &tier)),
+                "C08" => asmprops::run_c08(&Ctx::new("C08", &tier)),
+                "C03" => irprops::run_c03(&Ctx::new("C03", &tier)),
+                "C04" => irprops::run_c04(&Ctx::new("C04", &tier)),
+                "C05" => irprops::run_c05(&Ctx::new("C05", &tier)),
+                "ir-dump" => irprops::dump_ir(&args[2..]),
+                "ir-passes" => irprops::dev_passes(&args[2..]),
                 "gen-dump" => progprops::dump(&args[2..]),
                 "smoke" => smoke::run(&args[2..]),
                 "replay" => replay(&args[2]),
